@@ -1,7 +1,219 @@
 import FormulaeModel.Driver.Base
+import FormulaeModel.Model.Scanner
+import FormulaeModel.Model.Parser
+import FormulaeModel.Model.Matrices
+import FormulaeModel.Generated.Tables
+/-
+Driver op "design": the evaluation model (Model/Design.lean, Model/Matrices.lean) on a formula,
+a frame, the coding decisions observed from the implementation, and new frames.
+Shared by C04, C05, C06, C10, C15, C16, C17.
+-/
 namespace FormulaeModel.Driver.C04
-open Lean FormulaeModel FormulaeModel.Driver
+open Lean FormulaeModel FormulaeModel.Driver FormulaeModel.Design
 
-def handle (_op : String) (_j : Json) : Option Json := none
+def ratOfJson? : Json → Option Rat
+  | .arr #[a, b] =>
+    match a.getInt?, b.getInt? with
+    | .ok n, .ok d => if d == 0 then none else some ((n : Rat) / (d : Rat))
+    | _, _ => none
+  | j => match j.getInt? with
+    | .ok n => some (n : Rat)
+    | _ => none
+
+def ratJson (q : Rat) : Json := Json.arr #[Json.num (JsonNumber.fromInt q.num), Json.num (JsonNumber.fromNat q.den)]
+
+def entryJson : Entry → Json
+  | some q => ratJson q
+  | none => Json.null
+
+def matrixJson (m : Matrix) : Json := Json.arr (m.map (fun r => Json.arr (r.map entryJson).toArray)).toArray
+
+def cellOfJson (numeric : Bool) (j : Json) : Cell :=
+  match j with
+  | .null => .na
+  | .str s => if numeric then .na else .str s
+  | j => match ratOfJson? j with
+    | some q => .num q
+    | none => .na
+
+def columnOfJson (j : Json) : Column :=
+  let kind := getStr j "kind"
+  let ck : ColKind :=
+    if kind == "int" then .numeric true
+    else if kind == "float" then .numeric false
+    else if kind == "cat" then .categorical (getBool j "ordered") (strList j "categories")
+    else .string
+  let numeric := kind == "int" || kind == "float"
+  { name := getStr j "name", kind := ck, cells := (getArr j "cells").map (cellOfJson numeric) }
+
+def frameOfJson (j : Json) : Frame := (getArr j "cols").map columnOfJson
+
+def levelOfJson : Json → Option Level
+  | .str s => some (.s s)
+  | j => match j.getInt? with
+    | .ok n => some (.n n)
+    | _ => none
+
+def valOfJson (j : Json) : Option Val :=
+  match j.getObjVal? "levels" with
+  | .ok (.arr a) => some (.levels (a.toList.filterMap levelOfJson))
+  | _ =>
+    match j.getObjVal? "str" with
+    | .ok (.str s) => some (.str s)
+    | _ =>
+      match j.getObjVal? "num" with
+      | .ok n => (ratOfJson? n).map (fun q => .num q (getBool j "int"))
+      | _ => none
+
+def namesOfJson (j : Json) : List (String × Val) :=
+  match j with
+  | .obj kvs => kvs.toList.filterMap (fun (k, v) => (valOfJson v).map (fun x => (k, x)))
+  | _ => []
+
+def termSpecOfJson (j : Json) : TermSpec :=
+  { name := getStr j "name",
+    comps := (getArr j "comps").filterMap (fun c =>
+      match c with
+      | .arr #[.str n, .bool b] => some (n, b)
+      | _ => none) }
+
+mutual
+/-- every atom at a term position of the formula, keyed by its component name -/
+def atomTable : Expr → List (String × Expr)
+  | .grouping _ e _ => atomTable e
+  | .binary l _ r => atomTable l ++ atomTable r
+  | .unary _ r => atomTable r
+  | e =>
+    match Resolver.noKw (Resolver.lazyArg e) with
+    | .ok (nm, _) => [(nm, e)]
+    | .error _ => []
+end
+
+def errTag : Err → Json
+  | .keyError n => Json.mkObj [("err", "KeyError"), ("what", n)]
+  | .typeError => Json.mkObj [("err", "TypeError")]
+  | .valueError w => Json.mkObj [("err", "ValueError"), ("what", w)]
+  | .unmodelled w => Json.mkObj [("err", "unmodelled"), ("what", w)]
+
+def optLabels : Option (List String) → Json
+  | some l => jStrs l
+  | none => Json.null
+
+def slicesJson (s : List Slice) : Json :=
+  Json.arr (s.map (fun x => Json.arr #[Json.str x.name, (x.start : Nat), (x.stop : Nat)])).toArray
+
+def modeOf (s : String) : UnseenMode :=
+  if s == "warning" then .warning else if s == "silent" then .silent else .error
+
+structure Trained where
+  response : Option TermOut
+  common : List (String × Option TermOut)      -- none = Intercept
+  group : List GroupOut
+
+def interceptPart (n : Nat) : String × Matrix × Option (List String) :=
+  ("Intercept", onesCol n, some ["Intercept"])
+
+def train (env : Env) (table : List (String × Expr)) (j : Json) : M Trained := do
+  let response ← match j.getObjVal? "response" with
+    | .ok (.obj o) => do
+      let t ← trainTerm env table (termSpecOfJson (.obj o)) false true
+      pure (some t)
+    | _ => pure none
+  let common ← (getArr j "common").mapM (fun t => do
+    let spec := termSpecOfJson t
+    if spec.name == "Intercept" && spec.comps.isEmpty then pure (spec.name, none)
+    else do pure (spec.name, some (← trainTerm env table spec false false)))
+  let group ← (getArr j "group").mapM (fun g => do
+    let expr := match g.getObjVal? "expr" with
+      | .ok (.obj o) => some (termSpecOfJson (.obj o))
+      | _ => none
+    let factor := termSpecOfJson ((g.getObjVal? "factor").toOption.getD Json.null)
+    trainGroup env table { name := getStr g "name", expr, factor })
+  pure ⟨response, common, group⟩
+
+def commonStack (n : Nat) (t : Trained) : Stacked :=
+  stack n (t.common.map (fun p =>
+    match p.2 with
+    | none => interceptPart n
+    | some o => (p.1, o.data, o.labels)))
+
+def groupStack (n : Nat) (t : Trained) : Stacked :=
+  stack n (t.group.map (fun g => (g.st.name, g.data, g.labels)))
+
+def trainedJson (n : Nat) (t : Trained) : Json :=
+  let c := commonStack n t
+  let g := groupStack n t
+  Json.mkObj [
+    ("response", match t.response with
+      | some r => Json.mkObj [("matrix", matrixJson r.data), ("labels", optLabels r.labels),
+                              ("kind", r.st.kind),
+                              ("levels", match r.st.comps with
+                                | [cst] => if cst.kind == .categoric then jStrs (cst.levels.map Level.label)
+                                           else Json.null
+                                | _ => Json.null)]
+      | none => Json.null),
+    ("common", if t.common.isEmpty then Json.null else Json.mkObj [
+      ("matrix", matrixJson c.matrix), ("labels", optLabels c.labels), ("slices", slicesJson c.slices),
+      ("kinds", jStrs (t.common.map (fun p => match p.2 with | none => "intercept" | some o => o.st.kind)))]),
+    ("group", if t.group.isEmpty then Json.null else Json.mkObj [
+      ("matrix", matrixJson g.matrix), ("labels", optLabels g.labels), ("slices", slicesJson g.slices),
+      ("kinds", jStrs (t.group.map (·.st.kind))),
+      ("groups", Json.arr (t.group.map (fun x => jStrs x.st.groups)).toArray)])]
+
+/-- `evaluate_new_data` of the common and the group matrix on one new frame -/
+def newJson (t : Trained) (j : Json) (names : List (String × Val)) : Json :=
+  let frame := frameOfJson ((j.getObjVal? "frame").toOption.getD Json.null)
+  let env : Env := { frame, names }
+  let n := frame.nrows
+  let mode := modeOf (getStr j "mode")
+  let common : Json :=
+    if t.common.isEmpty then Json.null else
+    match t.common.mapM (fun p =>
+      match p.2 with
+      | none => pure (p.1, onesCol n, false)
+      | some o => do
+        let (m, w) ← newTerm o.st env mode
+        pure (p.1, m, w)) with
+    | .ok parts =>
+      Json.mkObj [("matrix", matrixJson (hstack (parts.map (·.2.1)) n)),
+                  ("warn", parts.any (·.2.2))]
+    | .error e => errTag e
+  let group : Json :=
+    if t.group.isEmpty then Json.null else
+    match t.group.mapM (fun g => do
+      let (m, w) ← newGroup g.st env mode
+      pure (g, m, w)) with
+    | .ok parts =>
+      let widths := parts.map (fun p => (p.1.st.name, p.2.1.ncols))
+      let fwnl := parts.foldl (fun acc p =>
+        if p.2.1.ncols != p.1.data.ncols && !acc.contains p.1.st.factor.name
+        then acc ++ [p.1.st.factor.name] else acc) ([] : List String)
+      Json.mkObj [("matrix", matrixJson (hstack (parts.map (·.2.1)) n)),
+                  ("slices", slicesJson (slices widths 0)),
+                  ("factors_with_new_levels", jStrs fwnl),
+                  ("warn", parts.any (·.2.2))]
+    | .error e => errTag e
+  Json.mkObj [("common", common), ("group", group)]
+
+def handle (op : String) (j : Json) : Option Json :=
+  match op with
+  | "design" =>
+    let s := getStr j "formula"
+    match Scanner.scan s.toList with
+    | .error _ => some (errJ "scan")
+    | .ok ts =>
+      match Parser.parse Generated.parserTable ts with
+      | .error _ => some (errJ "parse")
+      | .ok e =>
+        let table := atomTable e
+        let frame := frameOfJson ((j.getObjVal? "frame").toOption.getD Json.null)
+        let names := namesOfJson ((j.getObjVal? "names").toOption.getD Json.null)
+        let env : Env := { frame, names }
+        match train env table j with
+        | .error er => some (errTag er)
+        | .ok t =>
+          let news := (getArr j "new").map (fun nj => newJson t nj names)
+          some (Json.mkObj [("train", trainedJson frame.nrows t), ("new", Json.arr news.toArray)])
+  | _ => none
 
 end FormulaeModel.Driver.C04
